@@ -279,6 +279,8 @@ class _TableFormSection(object):
 
   def _parse_section(self, section_name):
     name = self._parse_name(section_name)
+    if not name:
+      raise ConfigParserException("No name given for table form, sections should be of the form [{}:NAME]. Invalid section: '[{}]'".format(self._section_name_prefix, section_name))
     section = self._cfg_parser[section_name]
 
     interpolation = section.get(u"interpolation", u"cubic_spline")
